@@ -470,19 +470,25 @@ func replay(path string) int {
 		fmt.Printf("replay of %s: no violation (recorded signature: %s)\n", path, rf.Signature)
 		return 0
 	}
-	f := r.out.Found[0]
-	same := f.Sig == rf.Signature
-	fmt.Printf("replay of %s: %s\n  detail: %s\n  same signature as recorded: %v; log fingerprint %s (recorded %s)\n", path, f.Sig, f.V.Detail, same, f.LogFP, rf.LogFP)
-	if k := matchKnown(loadKnown(), rf.Property, f.Sig); k != nil {
-		fmt.Printf("KNOWN-FINDING: property=%s %s\n", rf.Property, k.What)
-		return 0
+	code := 0
+	reproduced := false
+	for _, f := range r.out.Found {
+		same := f.Sig == rf.Signature
+		reproduced = reproduced || same
+		fmt.Printf("replay of %s: %s\n  detail: %s\n  same signature as recorded: %v; log fingerprint %s (recorded %s)\n", path, f.Sig, f.V.Detail, same, f.LogFP, rf.LogFP)
+		if k := matchKnown(loadKnown(), rf.Property, f.Sig); k != nil {
+			fmt.Printf("KNOWN-FINDING: property=%s %s\n", rf.Property, k.What)
+			continue
+		}
+		fmt.Printf("VIOLATION property=%s replay=%s\n", rf.Property, path)
+		code = 1
 	}
-	fmt.Printf("VIOLATION property=%s replay=%s\n", rf.Property, path)
-	return 1
+	if !reproduced {
+		fmt.Printf("recorded signature %s not reproduced\n", rf.Signature)
+	}
+	return code
 }
 
-// selftest: every sim, same seeds, several processes and GOMAXPROCS values,
-// per-run fingerprints must be identical.
 func selftest(which []string) int {
 	scratch, _ := os.MkdirTemp("/dev/shm", "verif-selftest-")
 	defer os.RemoveAll(scratch)
